@@ -203,7 +203,7 @@ func Check() *common.Check {
 	return &common.Check{
 		ID:    "C06",
 		Level: "exploration",
-		Rule: fmt.Sprintf("every accepted statement of the sqlgen space (quick: shapes with <=2 operator nodes in WHERE, all clause/DML/DDL/hole/nesting sections; thorough: everything incl. 3-operator shapes) and every accepted .sql file under /repo/testdata, "+
+		Rule: fmt.Sprintf("every accepted statement of the sqlgen space (quick: shapes with <=2 operator nodes in WHERE, all clause/DML/DDL/hole/nesting sections; thorough: everything incl. 3-operator shapes) every clause-option and DML statement again as commented text (2 comment layouts + 3 hand placements of line / block comments before, after and between code) and every accepted .sql file under /repo/testdata, "+
 			"each through %d (serialiser, option set) pairs: AST.SQL; AST.Format x {keyword case 3 x indent style 2 x width 3 x newline-per-clause 2 x semicolon 2} + 2 presets; the CLI SQLFormatter x 24 option sets; gosqlx.Format x 12; formatter.Format x 8. "+
 			"Oracle: re-parse accepted, tree equal up to keyword / operator-word / function-name / type-name letter case, second pass string-identical. distinct = distinct SQL text; non-trivial = statement uses >=3 grammar features", len(sers)),
 		Assume: []string{"tree equality under sqlgen's canonical dump; letter case of function names and type names folded (they are keywords in the tokenizer's tables)"},
@@ -217,6 +217,39 @@ func Check() *common.Check {
 				sql := s.SQL()
 				e.Do(sql, func(c *common.Ctx) { runCase(c, sql, s.Feat, s.Kind) })
 			})
+			// commented texts: the text-based serialisers keep comments, so where a comment stood (before / after code on
+			// its line, one or several per line, line or block) must not change the tree nor cost stability
+			seenC := map[string]bool{}
+			commented := func(name string, s sqlgen.S) {
+				for _, l := range []int{sqlgen.LComments, sqlgen.LComments2} {
+					sql := sqlgen.Render(s.Toks, l)
+					if seenC[sql] {
+						continue
+					}
+					seenC[sql] = true
+					feat := append(append([]string{}, s.Feat...), fmt.Sprintf("layout:comments-%d", l))
+					e.Do("C/"+sql, func(c *common.Ctx) { runCase(c, sql, feat, s.Kind) })
+				}
+				// hand placements on the natural text: trailing line comments on several lines, two comments sharing lines with code
+				words := strings.Fields(s.SQL())
+				if len(words) >= 4 {
+					h := len(words) / 2
+					for i, sql := range []string{
+						strings.Join(words[:h], " ") + " -- first\n" + strings.Join(words[h:], " ") + " -- second\n",
+						strings.Join(words[:2], " ") + " /* a */ " + strings.Join(words[2:h], " ") + " -- b\n" + strings.Join(words[h:], " ") + " /* c */",
+						"-- lead\n" + strings.Join(words[:h], " ") + " -- mid\n/* own line */\n" + strings.Join(words[h:], " "),
+					} {
+						if seenC[sql] {
+							continue
+						}
+						seenC[sql] = true
+						feat := append(append([]string{}, s.Feat...), fmt.Sprintf("layout:comment-placement-%d", i))
+						e.Do("C/"+sql, func(c *common.Ctx) { runCase(c, sql, feat, s.Kind) })
+					}
+				}
+			}
+			sqlgen.ClauseOptions(commented)
+			sqlgen.DMLCases(commented)
 			var files []string
 			filepath.Walk("/repo/testdata", func(p string, info os.FileInfo, err error) error {
 				if err == nil && !info.IsDir() && strings.HasSuffix(p, ".sql") {
